@@ -126,12 +126,20 @@ Inductive orc := Orc (p : N) (v : value).
 
 Inductive skind := KElem (* *ComputedStyle *) | KAnon (* *AnonymousStyle *).
 
+(* font metrics of the font a style selects (font-family, -style, -weight, -stretch, features, ...
+   of the node, resolved by the document's font configuration): what text.CharacterRatio
+   measures, i.e. x-height / font-size and advance of "0" / font-size.  Recorded input:
+   which font file a family name resolves to, and its metrics, are outside the model. *)
+Record metrics := mkMetrics { m_ex : Q; m_ch : Q }.
+
 Record node := mkNode {
   n_parent : option N;     (* node whose style is c.parentStyle; None: the root element *)
   n_kind : skind;
   n_decls : list decl;     (* c.cascaded *)
   n_oracle : list orc;     (* recorded results of computer functions the model does not cover *)
+  n_metrics : option metrics;  (* None: no font configuration recorded (ex / ch lengths fall back to n_oracle) *)
 }.
+Definition has_metrics (nd : node) : bool := match n_metrics nd with Some _ => true | None => false end.
 Definition tree := list node.
 
 Definition node_at (t : tree) (n : N) : option node := nth_error t (N.to_nat n).
@@ -174,7 +182,10 @@ Inductive dep :=
 | DOwn (p : N)        (* computer.Get(p) on the same style *)
 | DParent (p : N)     (* computer.parentStyle.Get(p) *)
 | DRootFs             (* computer.rootStyle.fontSize *)
-| DSpecPos | DSpecDisplay | DSpecFloat.   (* computer.specified.* *)
+| DSpecPos | DSpecDisplay | DSpecFloat    (* computer.specified.* *)
+| DRatio (ch : bool). (* text.CharacterRatio(computer, computer.cache, isCh, fonts): 1ex (false) or 1ch (true)
+                         over the font size, for the font of the style; resolved from n_metrics by
+                         `resolve_ratio` before a handler sees the program *)
 
 Inductive prog (A : Type) : Type :=
 | Ret (a : A)
@@ -275,7 +286,9 @@ Section Computers.
           else if u =? U_Rem then                                                         (* 343 *)
             Fetch DRootFs (fun r => rf <- dim_val r ;;
                                     Ret (as_pixels (VDim "" (mul ar q rf) U_Px) pixels_only))
-          else Fail 7                                                                     (* ex, ch: font metrics *)
+          else                                                                            (* 338-343: ex, ch *)
+            Fetch (DRatio (u =? U_Ch)) (fun r => rt <- dim_val r ;;
+              Ret (as_pixels (VDim "" (mul ar (mul ar q fsz) rt) U_Px) pixels_only))
         else Ret v                                                                        (* 346 *)
     | _ => Fail 1
     end.
@@ -487,29 +500,51 @@ Section Computers.
     end.
 
   Definition uses_metrics (u : N) : bool := (u =? U_Ex) || (u =? U_Ch).
+  (* a unit the model converts: any but ex / ch, and those too when the node's font
+     metrics are recorded (hm) *)
+  Definition unit_ok (hm : bool) (u : N) : bool := hm || negb (uses_metrics u).
 
   (* is the computation of `v` for property `p` covered by the model?  otherwise the
      recorded result (n_oracle) is used.  Wrongly typed values are "covered": the
      computer's type assertion panics. *)
-  Definition modelled (k : ckind) (v : value) : bool :=
+  Definition modelled (hm : bool) (k : ckind) (v : value) : bool :=
     match k with
     | KOther => false
     | KNone | KBreak | KDisplay | KFloat | KFontWeight => true
-    | KPoint _ => match v with VPoint _ u1 _ u2 => negb (uses_metrics u1 || uses_metrics u2) | _ => true end
+    | KPoint _ => match v with VPoint _ u1 _ u2 => unit_ok hm u1 && unit_ok hm u2 | _ => true end
     | KVerticalAlign =>
         match v with
-        | VDim s _ u => valign_keyword s || (negb (u =? U_Perc) && negb (uses_metrics u))
+        | VDim s _ u => valign_keyword s || (negb (u =? U_Perc) && unit_ok hm u)
         | VInfPx => false | _ => true end
     | KLength | KColumnWidth | KGap | KTabSize | KWordSpacing | KBleed =>
-        match v with VDim _ _ u => negb (uses_metrics u) | _ => true end
+        match v with VDim _ _ u => unit_ok hm u | _ => true end
     | KPixelLength | KBorderWidth | KLineHeight | KFontSize =>
-        match v with VDim _ _ u => negb (uses_metrics u) | VInfPx => false | _ => true end
+        match v with VDim _ _ u => unit_ok hm u | VInfPx => false | _ => true end
+    end.
+
+  (* text.CharacterRatio for the node's font: the DRatio reads of a program answered from
+     the recorded metrics *)
+  Definition ratio_value (m : metrics) (ch : bool) : value :=
+    VDim "" (if ch then m_ch m else m_ex m) U_Scalar.
+  Fixpoint resolve_ratio {A} (m : option metrics) (pg : prog A) : prog A :=
+    match pg with
+    | Ret a => Ret a
+    | Fail s => Fail s
+    | Fetch d k =>
+        match d with
+        | DRatio ch => match m with
+                       | Some mm => resolve_ratio m (k (ratio_value mm ch))
+                       | None => Fail 7
+                       end
+        | _ => Fetch d (fun v => resolve_ratio m (k v))
+        end
     end.
 
   (* computerFunctions[p](c, p, v)  (style.go:514-517) *)
   Definition compute (nd : node) (p : N) (v : value) : prog value :=
     let k := computer_of p in
-    if modelled k v then
+    if modelled (has_metrics nd) k v then
+      resolve_ratio (n_metrics nd)
       match k with
       | KNone => Ret v
       | KLength | KColumnWidth => v' <- dim_only v ;; length_ v' None false
@@ -659,6 +694,7 @@ Section Machine.
     | DSpecPos => (st, Ok (s_pos (style_of st n)))
     | DSpecDisplay => (st, Ok (s_disp (style_of st n)))
     | DSpecFloat => (st, Ok (s_float (style_of st n)))
+    | DRatio _ => (st, Panic 7)          (* resolved by `compute` (resolve_ratio) *)
     end.
 
   (* style.go:476-520 ComputedStyle.Get *)
@@ -818,6 +854,7 @@ Section Machine.
     | DParent q => if is_root then Panic 2 else parent_val q
     | DRootFs => rootfs
     | DSpecPos => pos | DSpecDisplay => disp | DSpecFloat => fl
+    | DRatio _ => Panic 7
     end.
 
   (* c.specified.*: the cascaded value, defaulted *)
@@ -899,3 +936,26 @@ Definition empty_styles : styles := PositiveMap.empty sstyle.
 (* all style objects constructed in index order (newStyleFor's tree order) *)
 Definition init_ops (t : tree) : list op := map (fun i => OConstruct (N.of_nat i)) (seq 0 (List.length t)).
 Definition init_styles (ar : arith) (fixed : bool) (t : tree) : styles := fst (run_ops ar fixed t empty_styles (init_ops t)).
+
+(* ------------------------------------------------------------------ the ex / ch ratio cache *)
+
+(* pr.TextRatioCache (css/properties/main.go:117-140): two Go maps fontKey -> ratio, one per
+   unit; one cache per document, handed from the parent style to its children
+   (newComputedStyle style.go:368-372).  A Go map as an association list: the most recent
+   binding of a key is found first. *)
+Record rcache := mkRcache { rc_ch : list (string * Q); rc_ex : list (string * Q) }.
+Definition rc_empty : rcache := mkRcache [] [].                       (* NewTextRatioCache *)
+Definition rc_get (c : rcache) (key : string) (is_ch : bool) : option Q :=    (* Get 127-134 *)
+  assoc_S (if is_ch then rc_ch c else rc_ex c) key.
+Definition rc_set (c : rcache) (key : string) (is_ch : bool) (f : Q) : rcache :=   (* Set 136-142 *)
+  if is_ch then mkRcache ((key, f) :: rc_ch c) (rc_ex c) else mkRcache (rc_ch c) ((key, f) :: rc_ex c).
+
+(* text.CharacterRatio (text/text.go:174-204) with a font configuration.  `measure key is_ch`:
+   what is computed on a miss for the font description `key` (style.cacheKey()): width0 /
+   heightx at size 1000 over 1000, rounded to 5 decimals, 0 replaced by 0.5. *)
+Definition character_ratio (measure : string -> bool -> Q) (c : rcache) (key : string) (is_ch : bool)
+  : rcache * Q :=
+  match rc_get c key is_ch with
+  | Some f => (c, f)                                                             (* 181-183 *)
+  | None => let v := measure key is_ch in (rc_set c key is_ch v, v)               (* 185-203 *)
+  end.
